@@ -160,12 +160,14 @@ def http_response(rng, body=None, ctype=None, location=None):
             payload = mutate(rng, payload)
         elif rng.random() < 0.2:
             payload = payload[:rng.randrange(len(payload) + 1)]
-    framing = rng.choice(['length', 'length', 'chunked', 'close', 'both', 'none'])
+    if status == 206 or rng.random() < 0.05:
+        hdrs.append(('Content-Range', rng.choice(['bytes 0-4/0', 'bytes 0-4/5', 'bytes 5-1/3', 'bytes */0', 'bytes 0-0/x', 'items 0-4/0', 'bytes 0-99999999999999999999/1', ''])))
+    framing = rng.choice(['length', 'length', 'chunked', 'close', 'both', 'both', 'none'])
     close = False
     wire_body = payload
     if framing in ('length', 'both'):
         cl = rng.choice([str(len(payload))] * 6 + ['-1', 'x', '', '1e3', str(len(payload) + 5), str(max(0, len(payload) - 3)), '9' * 30, '0x10', ' 5 ', '+5', '５',
-                                                   '\xb2', '1\xb2', '\xb9\xb2\xb3', '1' * 4400, '0' * 5000 + '5', '1_0', '١٢', '\xbc'])   # isdigit()/isdecimal()/int() disagree on these
+                                                   '\xb2', '1\xb2', '\xb9\xb2\xb3', '1' * 4400, '0' * 5000 + '5', '1_0', '١٢', '\xbc', '0', '0', '00', '1'])   # isdigit()/isdecimal()/int() disagree on these
         hdrs.append(('Content-Length', cl))
     if framing in ('chunked', 'both'):
         hdrs.append(('Transfer-Encoding', rng.choice(['chunked', 'chunked', 'Chunked', 'gzip, chunked', 'identity'])))
